@@ -29,12 +29,15 @@ def handle (tb : Tables) (c impl : T) : String :=
       [ { flag := "D19", onInCur := cfg.fragPathSegment, obs := runModel tb cs { cfg with fragPathSegment := !cfg.fragPathSegment } },
         { flag := "D20", onInCur := cfg.keepValueOnError, obs := runModel tb cs { cfg with keepValueOnError := !cfg.keepValueOnError } },
         { flag := "D14", onInCur := cfg.condByIdentity, obs := runModel tb cs { cfg with condByIdentity := !cfg.condByIdentity } },
+        { flag := "D12-data", onInCur := cfg.dupKeyOverwrites, obs := runModel tb cs { cfg with dupKeyOverwrites := !cfg.dupKeyOverwrites } },
         { flag := "D07", onInCur := !tb.skip.accumulates,
           obs := runModel tb cs { cfg with skipTable := if tb.skip.accumulates then Skip.tableAssign else Skip.tableOr } } ]
+    -- the values of a response key selected more than once are merged now, but each selection still runs its
+    -- resolver: a failing resolver is reported once per selection (what is left of D12)
     let extra := if cs.ops.any (fun o => C01.collides o.sels) then ["D12"] else []
     let specOk := oracle cs impl
     if impl == cur then
-      if specOk then "ok"
+      if specOk || cs.ops.any (fun o => C01.conflicting o.sels) then "ok"
       else
         let fl := (alts.filter (fun a => a.onInCur && !(a.obs == cur))).map (·.flag) ++ extra
         if fl.isEmpty then "unattributed " ++ cur.render else "dev " ++ ",".intercalate fl
